@@ -304,6 +304,10 @@ func exec(op string) string {
 		return "accept" // the implementation's trace is what it is; the model decides whether it accepts it
 	case "kf-d13":
 		return kfD13()
+	case "trace2":
+		return "accept"
+	case "sched":
+		return replaySched(op)
 	}
 	return "bad-op"
 }
@@ -376,6 +380,21 @@ func main() {
 	for i := 0; i < 150*mult; i++ {
 		op, cls := runWriterContract(r)
 		out.Case(op, "accept", cls, true)
+	}
+	// scheduling tier: both writers x write timeout {0, >0} x protocol, scripted transport
+	nsched := 240 * mult
+	if v := os.Getenv("C07_NSCHED"); v != "" {
+		fmt.Sscan(v, &nsched)
+	}
+	for i := 0; i < nsched; i++ {
+		conf := sconf{proto: []int{4, 3, 2}[r.Intn(3)], coal: i%2 == 1, wt: (i/2)%2 == 1}
+		sop, ans, top, cls := runSched(r, conf)
+		if strings.HasPrefix(sop, "fatal") {
+			fmt.Fprintln(os.Stderr, "c07:", sop)
+			os.Exit(3)
+		}
+		out.Case(sop, ans, cls, true)
+		out.Case(top, "accept", "trace2", true)
 	}
 	out.Close(nil)
 }
